@@ -354,7 +354,7 @@ func checkCall(c callCase) harness.Outcome {
 var callFacet = harness.Register(&harness.Facet[callCase]{
 	Name: "calls",
 	Rule: "rapid: Value.Call(this, args…) on callees incl. bound, constructor, throwing, built-in and non-callable values; Object.Call(name, args…) on o, o.inner, the global object, Math, an array, incl. missing / non-function properties; Otto.Call(source, this, args…) over source forms (identifier, member, bracket, parenthesised, comma, bind, function expression, README examples), this = nil / undefined / null / object / Go value, and the documented \"new \" prefix; 0-3 Go arguments of every kind of facet 1 (scalars of every width, strings, nil, containers to depth 2, structs, pointers); oracle: the same call written in script on the same runtime with the same Go values bound as globals (result rendered by a deep printer: types, sign of zero, string lengths, containers), error iff the language throws (same error class), and for the reporter family the ES5 this value, the argument count and the argument values against the counterpart model; every case non-trivial; distinct by case JSON",
-	Quick:    2500,
+	Quick:    3500,
 	Thorough: 30000,
 	Gen:      genCall,
 	Check:    checkCall,
